@@ -223,6 +223,9 @@ func TestVerifC21Store(t *testing.T) {
 				return
 			}
 			acked.Store(k)
+			if k > 3000 {
+				time.Sleep(2 * time.Millisecond) // keep the database (and every backup of it) small enough
+			}
 		}
 	}()
 	wg.Add(1)
@@ -249,9 +252,21 @@ func TestVerifC21Store(t *testing.T) {
 			}
 		}
 	}
-	rounds := vfScale(4, 60)
+	rounds := vfScale(4, 40)
+	deadline := time.Now().Add(time.Duration(vfScale(60, 600)) * time.Second) // the database keeps growing: time-box the run
+	// the SQL dump is the one format rqlite itself has to keep consistent across tables (one
+	// SELECT per table): take many more of those, they are cheap
+	sqlExtra := vfScale(24, 300)
+	var plan []c21Cfg
 	for round := 0; round < rounds; round++ {
-		for _, cfg := range cfgs {
+		plan = append(plan, cfgs...)
+	}
+	for i := 0; i < sqlExtra; i++ {
+		plan = append(plan, c21Cfg{proto.BackupRequest_BACKUP_REQUEST_FORMAT_SQL, false, i%2 == 1})
+	}
+	for pi := 0; pi < len(plan) && time.Now().Before(deadline); pi++ {
+		{
+			cfg := plan[pi]
 			before := acked.Load()
 			var buf bytes.Buffer
 			br := &proto.BackupRequest{Format: cfg.format, Vacuum: cfg.vacuum, Compress: cfg.compress}
